@@ -10,6 +10,15 @@ Pieces (all standard library, plus the `capnp` command-line tool for the cache f
   canon_route/canon_access/canon_summary   canonical one-line texts (same format as harness/l2.cpp prints)
   selftest()                exercises everything against the real binary
 
+Things to know when predicting the server's answers:
+  * the server's OSRM client retries ONCE, silently, when the connection fails before a response header arrived:
+    queue "refuse"/"drop" twice to make the failure visible to the calculation;
+  * the geofilter enumerates candidate stops in id order and drops rows slower than max_access/egress_travel_time:
+    effective_rows(rows, max) is the list the calculator really gets;
+  * the straight-line pre-filter lets stop n through iff (0.787 n)^2 + 11^2 (22^2 for the destination) <= (max_time * 1.389)^2
+    metres, i.e. about the first 100 stops for 60 s, 528 for 300 s, all of 1500 for 1200 s;
+  * footpath times/distances are Int16 in the node files, trip times Int32.
+
 Conventions shared with harness/l2.cpp:
   uuid of object kind K with integer id N = "%08d-0000-4000-8000-%012d" % (K, N)
   K: node 1, line 2, path 3, trip 4, scenario 5, agency 6, service 7
@@ -632,8 +641,12 @@ class Server:
             env = dict(os.environ)
             env.update(extra_env or {})
             self.cmd = cmd
-            self.proc = subprocess.Popen(cmd, stdin=subprocess.DEVNULL, stdout=self._logfh, stderr=subprocess.STDOUT, env=env,
-                                         cwd=LOGS)
+            try:
+                self.proc = subprocess.Popen(cmd, stdin=subprocess.DEVNULL, stdout=self._logfh, stderr=subprocess.STDOUT, env=env,
+                                             cwd=LOGS)
+            except OSError:
+                self._logfh.close()
+                raise
             self.pid = self.proc.pid
             _register(self)
             try:
@@ -668,6 +681,14 @@ class Server:
                 return f.read()[-n:].decode(errors="replace")
         except OSError:
             return ""
+
+    def crash_report(self):
+        """first line of the log that looks like a sanitizer / assertion / terminate message, else the last line"""
+        lines = self.log_tail(200000).strip().split("\n")
+        for l in lines:
+            if re.search(r"runtime error|AddressSanitizer|Assertion|terminate called|what\(\)|Fatal|kj/", l):
+                return l.strip()[:400]
+        return (lines or [""])[-1].strip()[:400]
 
     def __enter__(self):
         return self
@@ -1172,7 +1193,7 @@ def _selftest(san, seeds, keep):
                     print("  extra fault more (one surplus column) -> %s %s   alive=%s exit status=%s"
                           % (st, canon_route(body)[:60] if st else "(no response)", srv.alive(), srv.exit_status()))
                     if not srv.alive():
-                        print("     last log line: %s" % (srv.log_tail(400).strip().split("\n") or [""])[-1][:300])
+                        print("     log: %s" % srv.crash_report())
     finally:
         _cleanup_all()
         if not keep:
